@@ -435,6 +435,10 @@ def observe(o):
     return d
 
 
+class BadTrace(Exception):
+    """The trace itself is malformed (dangling object reference): not an observation."""
+
+
 class Interp(object):
     """Executes API ops one at a time on a pool of live objects. Each op result is
     {"ok": value} or {"exc": exc_info}; the library's writes to the (simulated) stdout/stderr
@@ -468,11 +472,21 @@ class Interp(object):
             if kind == "int":
                 return 7
             if kind == "vector_of":
-                return self.objs[spec["v"]].vector
+                return self._obj(spec["v"]).vector
             if kind == "clean_of":
-                return self.objs[spec["v"]].clean_vector()
+                return self._obj(spec["v"]).clean_vector()
             return spec
-        return self.objs[spec]
+        return self._obj(spec)
+
+    def _obj(self, name):
+        if name not in self.objs:
+            raise BadTrace("no live object %r" % (name,))
+        return self.objs[name]
+
+    def _held(self, name):
+        if name not in self.held:
+            raise BadTrace("no held dict %r" % (name,))
+        return self.held[name]
 
     # -- one op --------------------------------------------------------------------------
     def do(self, op):
@@ -497,9 +511,9 @@ class Interp(object):
                 self.objs[op["as"]] = o
             return observe(o)
         if kind == "observe_obj":
-            return observe(self.objs[op["obj"]])
+            return observe(self._obj(op["obj"]))
         if kind == "call":
-            o = self.objs[op["obj"]]
+            o = self._obj(op["obj"])
             args = op.get("args") or {}
             kwargs = dict((str(k), v) for k, v in args.items())
             r = getattr(o, op["m"])(**kwargs)
@@ -533,12 +547,12 @@ class Interp(object):
             b = self._operand(op["b"])
             return [canon(b in set([a])), canon(len(set([a, b])))]
         if kind == "roundtrip":
-            h = self.held[op["held"]]
+            h = self._held(op["held"])
             return canon(json.loads(json.dumps(h)) == json.loads(json.dumps(dict(h))))
         if kind == "dump_held":
-            return canon(self.held[op["held"]])
+            return canon(self._held(op["held"]))
         if kind == "mutate":
-            h = self.held[op["held"]]
+            h = self._held(op["held"])
             how = op["how"]
             if how == "clear":
                 h.clear()
@@ -556,7 +570,7 @@ class Interp(object):
             elif how == "add":
                 h[op.get("k", "injected")] = op.get("v", "JUNK")
             elif how == "update":
-                h.update(self.held[op["other"]])
+                h.update(self._held(op["other"]))
             elif how == "popitem":
                 if h:
                     h.popitem()
@@ -611,6 +625,8 @@ class Interp(object):
                 res["ok"] = self.do(op)
             except SimAbort:
                 res["aborted"] = True
+            except BadTrace as e:
+                res["bad"] = to_text(e)
             except Exception as e:
                 res["exc"] = exc_info(e)
         finally:
